@@ -513,3 +513,81 @@ func packedUnpackRef(p []byte) ([]byte, bool) {
 	b, err := packed.Unpack(nil, p)
 	return b, err != nil
 }
+
+// The packed stream cut at ANY byte: frames that are complete decode, and the next Decode reports
+// io.EOF only when the cut is exactly at a frame boundary - a cut inside a frame (also between a
+// zero tag and its count byte) is an error, never a clean end of stream.
+func VH_C14_stream_packed_cut() {
+	var bufs [2][]byte
+	var ends [2]int
+	var w vBufW
+	enc := NewPackedEncoder(&w)
+	for f := 0; f < 2; f++ {
+		bufs[f] = vNondetBytes(8)
+		mask := byte(0xff)
+		switch vNondetU8() % 3 {
+		case 1:
+			mask = 0x00
+		case 2:
+			mask = 0x7f
+		}
+		for j := 0; j < 8; j++ {
+			if mask&(1<<uint(j)) != 0 {
+				vAssume(bufs[f][j] != 0)
+			} else {
+				vAssume(bufs[f][j] == 0)
+				bufs[f][j] = 0
+			}
+		}
+		m := &Message{Arena: SingleSegment(bufs[f])}
+		vAssume(enc.Encode(m) == nil)
+		ends[f] = len(w.b)
+	}
+	stream := w.b
+	c := vNondetInt()
+	vAssume(c >= 0 && c <= len(stream))
+	c = vConcrete(c, len(stream)+1)
+	vReach("cut")
+	d := NewPackedDecoder(&vReader{data: stream[:c:c]})
+	if vNondetBool() {
+		d.ReuseBuffer()
+	}
+	for f := 0; f < 2; f++ {
+		g, err := d.Decode()
+		if c >= ends[f] {
+			vAssert(err == nil, "C14.packedcut.complete-frame-decoded")
+			if err != nil {
+				return
+			}
+			continue
+		}
+		start := 0
+		if f == 1 {
+			start = ends[0]
+		}
+		if c == start {
+			vAssert(err == io.EOF, "C14.packedcut.eof-at-frame-boundary")
+			return
+		}
+		if err == nil {
+			// The only cut a packed reader cannot notice at once: the count byte after the zero tag of
+			// the frame's LAST word is missing. The word itself is complete (zeros), so the frame is
+			// delivered - with the right bytes - and the cut is reported by the next read.
+			vAssert(c == ends[f]-1, "C14.packedcut.only-a-missing-final-count-byte-is-reported-late")
+			s, serr := g.Segment(0)
+			vAssert(serr == nil && len(s.data) == 8, "C14.packedcut.late.segment")
+			if serr == nil && len(s.data) == 8 {
+				j := vNondetInt()
+				vAssume(j >= 0 && j < 8)
+				vAssert(s.data[j] == bufs[f][j], "C14.packedcut.late.no-invented-bytes")
+			}
+			_, err2 := d.Decode()
+			vAssert(err2 != nil && err2 != io.EOF, "C14.packedcut.cut-is-an-error-not-a-clean-end")
+			return
+		}
+		vAssert(err != io.EOF, "C14.packedcut.cut-inside-frame-is-an-error")
+		return
+	}
+	_, err := d.Decode()
+	vAssert(err == io.EOF, "C14.packedcut.eof-after-last-frame")
+}
